@@ -4,6 +4,7 @@ from hypothesis import strategies as st
 from vf import h5
 from vf.core import Acc, Verdict, active, drive, guarded, short, sig64
 from vf.gen import soup
+from vf.ref import prescan as P
 
 ID = "C16"
 TECHNIQUE = ("differential property-based testing strict vs. non-strict parsing over generated markup soup and every truncation (EOF site) of "
@@ -16,7 +17,7 @@ RULE = ("Hypothesis markup soup x {document, fragment in 45 contexts} x scriptin
         "outcome for the second input equals that of new objects (the strict first parse usually aborts). "
         "Non-trivial = E != []; distinct = distinct (first error code, set of codes) signature; the evidence lists the codes reached.")
 ASSUMPTIONS = ["positions are judged against the newline-normalised input; a column may equal the line length (position after the last character)"]
-SHRINK = {"text": "str", "first": "str"}
+SHRINK = {"text": "str", "first": "str", "data": "bytes"}
 
 
 def _lines(text):
@@ -34,6 +35,8 @@ def check_case(case):
         return conforming.check_no_errors(case)
     if case.get("kind") == "reuse":
         return check_reuse(case)
+    if case.get("kind") == "bytes":
+        return check_bytes(case)
     text, container, scripting = case["text"], case.get("container"), bool(case.get("scripting"))
     p = h5.parser("etree", True, strict=False)
     try:
@@ -104,6 +107,52 @@ def _outcome(parser, text):
     return ("ok", [(c, pos) for (pos, c, v) in parser.errors])
 
 
+def check_bytes(case):
+    """Byte input: the encoding may be tentative and the first pass abandoned for a re-parse in the declared encoding; what the
+    abandoned pass recorded is discarded by the non-strict parser, so strict mode must not raise it either."""
+    from html5lib import constants
+    from html5lib.html5parser import ParseError
+    data, args, fragment = case["data"], dict(case.get("args") or {}), case.get("entry") == "fragment"
+    out = []
+    for strict in (False, True):
+        p = h5.parser("etree", True, strict=strict)
+        try:
+            (p.parseFragment if fragment else p.parse)(data, **args)
+            out.append(("ok", None, p))
+        except ParseError as e:
+            out.append(("ParseError", str(e), p))
+        except Exception as e:
+            return Verdict("fail", "%s parse of bytes raised %s: %s; input %s args %r" % ("strict" if strict else "non-strict", type(e).__name__, short(str(e), 80),
+                                                                                        short(data, 150), args),
+                           "bytes:%s-exception:%s" % ("strict" if strict else "nonstrict", type(e).__name__), nontrivial=True)
+    pn = out[0][2]
+    errs = list(pn.errors)
+    enc_n = pn.documentEncoding
+    enc_s = out[1][2].tokenizer.stream.charEncoding[0].name
+    classes = ["bytes", "bytes:errors" if errs else "bytes:clean"]
+    try:
+        import webencodings
+        first = webencodings.lookup(P.pre_parse_encoding(data, args)[0]) if not fragment else None
+        if first is not None and first.name != enc_n:
+            classes.append("bytes:reparsed")
+    except Exception:
+        pass
+    nontrivial = "bytes:reparsed" in classes
+    sig = sig64("bytes", enc_n, tuple(sorted(set(e[1] for e in errs))), tuple(sorted(args)), nontrivial)
+    if errs and out[1][0] == "ok":
+        return Verdict("fail", "bytes input: non-strict recorded %r but strict mode raised nothing; input %s args %r" % (errs[0], short(data, 150), args),
+                       "bytes:strict-silent:" + errs[0][1], nontrivial=True, classes=classes)
+    if not errs and out[1][0] != "ok":
+        return Verdict("fail", "bytes input: strict mode raised %r (stream encoding %s) but the non-strict parse (encoding %s) recorded no error; input %s args %r"
+                       % (out[1][1], enc_s, enc_n, short(data, 150), args), "bytes:strict-spurious", nontrivial=True, classes=classes)
+    if errs:
+        want = constants.E[errs[0][1]] % errs[0][2]
+        if out[1][1] != want:
+            return Verdict("fail", "bytes input: strict mode raised %r (stream encoding %s), the first recorded error is %r (%r, encoding %s); input %s args %r"
+                           % (out[1][1], enc_s, errs[0][1], want, enc_n, short(data, 150), args), "bytes:strict-not-first:" + errs[0][1], nontrivial=True, classes=classes)
+    return Verdict("pass", nontrivial=nontrivial, sig=sig, classes=classes)
+
+
 def check_reuse(case):
     """The same equivalence when the parser objects have parsed something before (a validator loop: one strict parser, many inputs)."""
     from html5lib import constants
@@ -144,6 +193,7 @@ def shards(tier):
     # instead of a parse error shows here as 'another exception type')
     for ai in (6, 7, 8):
         out.append({"kind": "tiny", "alphabet": ai, "len": 4 if quick else 6})
+    out += [{"kind": "bytes", "n": 2500 if quick else 40000} for _ in range(2)]
     return out
 
 
@@ -181,6 +231,19 @@ def run_shard(desc, seed, tier):
                 case = {"text": ("<!DOCTYPE html>" if k % 2 else "") + text, "container": None if k % 5 else "div", "scripting": False}
                 acc.add(case, check_case(case))
         acc.extra["tiny_sequences"] = n
+    elif kind == "bytes":
+        from vf.gen.soup import sized_binary
+        from vf.props import c06
+
+        def fn(b):
+            data, args, _k, _pl = c06.decode_case(b[1:])
+            # text valid in UTF-8 whose bytes are C1 controls / unassigned in the legacy single-byte encodings, and the reverse
+            tail = [b"", b"<p>\xe2\x80\x9c", b"</i>", b"\x81\x8d", b"\xc2\x85x", b"<b>\xd0\x98"][b[0] % 6 if b else 0]
+            if b[1:2] and b[1] % 2:
+                data = b"<!DOCTYPE html><title>t</title>" + data
+            case = {"kind": "bytes", "data": data + tail, "args": args, "entry": "fragment" if b[:1] and b[0] % 5 == 0 else "document"}
+            acc.add(case, check_case(case), sample={"data": short(case["data"], 200), "args": args, "entry": case["entry"]})
+        drive(sized_binary(8, 80), fn, desc["n"], seed)
     elif kind == "reuse":
         from vf.gen.soup import sized_binary
         from vf.props.c12 import decode_doc
